@@ -358,8 +358,12 @@ impl Scenario for C04 {
                         cur = i;
                         let oc = deliver(&w, max_id, &mut n, i, &mut r, &mut trace, None);
                         if oc != (AddOutcome::Added { longest: true }) {
+                            // a read error during the reorganisation attempt is a known finding (blocks wound /
+                            // unwound without their transactions); a chain that cannot be extended afterwards
+                            // is one of its consequences
+                            let faulted = r.faults.get("disk_read_error_during_add_block").cloned().unwrap_or(0) > 0;
                             r.violate(
-                                "C04|liveness|cannot-extend-after-rejection",
+                                if faulted { "C04|disk-read-fault|state-not-restored" } else { "C04|liveness|cannot-extend-after-rejection" },
                                 format!("honest child of the tip refused after a rejected block: {:?}", oc),
                             );
                             break;
